@@ -120,8 +120,8 @@ func VH_udp() {
 	s := layer4.VerifNewServer(rl, 3*time.Second)
 	done := make(chan error, 1)
 	go func() { done <- layer4.VerifServePacket(s, pc) }()
-	vapi.Yield()                     // the burst is processed
-	vapi.Advance(31 * time.Second)   // idle expiry of whatever is still open
+	vapi.Yield()                   // the burst is processed
+	vapi.Advance(31 * time.Second) // idle expiry of whatever is still open
 	close(pc.shutdown)
 	vapi.Yield()
 	select {
